@@ -657,16 +657,27 @@ fn run_scenario(line: &str, out: &mut impl Write) {
     SPEC_TRACKING.with(|t| t.set(false));
     let mut lines: Vec<String> = Vec::new();
     let mut env: Env = None;
+    // a second, unrelated root on the same thread (another app mounted on the page, the per-thread SSR root): its root scope provides
+    // a sentinel for every context type, so that a lookup that ends up in the wrong root is seen
+    let foreign = create_root(|| {
+        for ty in 0..4 {
+            provide(ty, -777);
+        }
+    });
     let root = create_root(|| {
         let h = use_global_scope();
         register(0, Bind::Handle(h));
         env = bind(&None, 0, Bind::Handle(h));
     });
     for s in stmts.iter() {
-        // every top-level statement runs in the root (RootHandle::run_in), except disposals: a handle may be disposed from anywhere,
-        // e.g. from code that runs outside every reactive root
-        let outside = matches!(s, Stmt::Dispose(_));
-        let r = panic::catch_unwind(AssertUnwindSafe(|| if outside { exec1(&env, s) } else { root.run_in(|| exec1(&env, s)) }));
+        // every top-level statement runs in the root (RootHandle::run_in), except the uses of a handle: a handle may be disposed from
+        // anywhere, e.g. from code that runs outside every reactive root, and entered (NodeHandle::run_in) from anywhere, e.g. from
+        // code that runs in ANOTHER root
+        let r = panic::catch_unwind(AssertUnwindSafe(|| match s {
+            Stmt::Dispose(_) => exec1(&env, s),
+            Stmt::RunIn(..) => foreign.run_in(|| exec1(&env, s)),
+            _ => root.run_in(|| exec1(&env, s)),
+        }));
         lines.extend(LOG.with(|l| std::mem::take(&mut *l.borrow_mut())));
         match r {
             Ok(e) => {
@@ -727,6 +738,7 @@ fn run_scenario(line: &str, out: &mut impl Write) {
             lines.push(format!("rootdisposed panic {}", classify(&msg, &file)));
         }
     }
+    let _ = panic::catch_unwind(AssertUnwindSafe(|| foreign.dispose()));
     for l in lines {
         writeln!(out, "{l}").unwrap();
     }
